@@ -7,6 +7,12 @@ open Sylvia.Mt
 
 def optOfDash (s : String) : Option String := if s == "-" then none else some s
 
+/-- admin field: `-` none, `~` the empty string, else an account name -/
+def adminOf (s : String) : Option String := if s == "-" then none else if s == "~" then some "" else some s
+
+def showAdmin : Option String → String
+  | none => "-" | some "" => "~" | some a => a
+
 def jsonOfHex (s : String) : Option Json := parseJson (utf8OfHex s)
 
 def argsOfHex (s : String) : List Json := match jsonOfHex s with | some (.arr xs) => xs | _ => []
@@ -14,7 +20,7 @@ def argsOfHex (s : String) : List Json := match jsonOfHex s with | some (.arr xs
 def parseSetter (s : String) : Option MtSetter :=
   match s.splitOn "=" with
   | ["l", v] => some (.label (utf8OfHex v))
-  | ["a", v] => some (.admin (optOfDash v))
+  | ["a", v] => some (.admin (adminOf v))
   | ["f", v] => some (.funds (v.toNat?.getD 0))
   | ["s", v] => some (.salt (optOfDash v))
   | _ => none
@@ -39,7 +45,7 @@ def parseRawStep (s : String) : Option RawOp :=
   | ["store"] => some { shape := .store, body := .null }
   | ["setfail", slot, m] => some { shape := .setfail slot.toNat! (markerOf m), body := .null }
   | ["inst", code, sender, funds, label, admin, salt, body] =>
-    (jsonOfHex body).map fun b => { shape := .inst code.toNat! sender (funds.toNat?.getD 0) (utf8OfHex label) (optOfDash admin) (optOfDash salt), body := b }
+    (jsonOfHex body).map fun b => { shape := .inst code.toNat! sender (funds.toNat?.getD 0) (utf8OfHex label) (adminOf admin) (optOfDash salt), body := b }
   | ["exec", slot, sender, funds, body] => (jsonOfHex body).map fun b => { shape := .exec slot.toNat! sender (funds.toNat?.getD 0), body := b }
   | ["query", slot, body] => (jsonOfHex body).map fun b => { shape := .query slot.toNat!, body := b }
   | ["sudo", slot, body] => (jsonOfHex body).map fun b => { shape := .sudo slot.toNat!, body := b }
@@ -52,7 +58,7 @@ def showRawStep (op : RawOp) : String :=
   | .store => "store"
   | .setfail slot m => "setfail:" ++ toString slot ++ ":x" ++ hexOfString (m.getD "-")
   | .inst code sender funds label admin salt =>
-    ":".intercalate ["inst", toString code, sender, toString funds, hexOfString label, admin.getD "-", salt.getD "-", body]
+    ":".intercalate ["inst", toString code, sender, toString funds, hexOfString label, showAdmin admin, salt.getD "-", body]
   | .exec slot sender funds => ":".intercalate ["exec", toString slot, sender, toString funds, body]
   | .query slot => ":".intercalate ["query", toString slot, body]
   | .sudo slot => ":".intercalate ["sudo", toString slot, body]
